@@ -1,35 +1,53 @@
 (* C14 — ABOR at any moment stops the transfer, is answered, and keeps the session usable.
-   Property statements only; proofs live in Proofs/Transfer.v.  genF = the transfer model
+   Property statements only; proofs live in Proofs/Transfer.v and Proofs/TransferFixed.v.  genF = the transfer model
    instantiated with the facts regenerated from server.py (decorator order, async-with order,
    worker decorator, abor() condition, dispatcher except ladders). *)
 From Coq Require Import ZArith List Bool String.
-From Verif Require Import Lib.Sx Lib.Facts Model.Transfer Proofs.Transfer Proofs.TransferGen Gen.Dispatch Gen.Workers.
+From Verif Require Import Lib.Sx Lib.Facts Model.Transfer Proofs.Transfer Proofs.TransferFixed Proofs.TransferGen Gen.Dispatch Gen.Workers.
 Import ListNotations.
 Open Scope list_scope.
 
-(* closed obligations over today's source *)
+(* closed obligations over today's source.  repaired14 is false on each of the former shapes: abor() testing the
+   truthiness of extra_workers (F3), the dispatcher without a CancelledError clause answering 426,226 around
+   task.result() (F2), a worker entering the file context before the stream (F4) *)
 Lemma C14_translator_ok : Dispatch.translator_ok = true /\ Workers.translator_ok = true.
 Proof. vm_compute. split; reflexivity. Qed.
-(* the two translators agree; abor() cancels every element of extra_workers in one branch and replies 226 in the other *)
 Lemma C14_translators_agree : translators_agree = true.
 Proof. exact gen_translators_agree. Qed.
 Lemma C14_abor_shape_ok : abor_shape_ok = true.
 Proof. exact gen_abor_shape_ok. Qed.
-Lemma C14_facts_ok : sound14 genF = true.
+Lemma C14_facts_ok : repaired14 genF = true.
 Proof. vm_compute. reflexivity. Qed.
 
-(* ABOR while the worker is in the transfer body (from the detach to the last __aexit__, any
-   number k of blocks moved, any payload), outside the F4 hole: replies 426 then 226; the worker
-   ends with the data stream and the file closed; what it had moved is unchanged (a prefix of
-   the payload: C14_moved_is_prefix); the session state is exactly that of an idle session (same
-   session record, no worker), so every continuation behaves as from a fresh state. *)
+(* abor_ok st: the replies from ABOR on are [426;226] or [226]; the state afterwards is exactly
+   {| ss := ss st; ws := [] |} (an idle session with the same record: every continuation behaves as from a fresh
+   state); every worker has ended holding neither the data stream nor a file; what each had moved is unchanged
+   (still a prefix of its payload, C14_moved_is_prefix).
+
+   THE FULL STATEMENT, all stages, no carve-out for any defect: every reachable state of a live session with at
+   most one transfer (the property's quantifier).  at_rest is not a restriction on the moment but the asyncio
+   rule R1 and the bookkeeping of replies:
+     - the worker is where another task can find it: suspended (waiting for the data connection, any back-end
+       call, any stream read/write), not yet started, or finished - the model's WStep is finer than asyncio's
+       atomic run-to-next-await, the abor handler never runs in between;
+     - the transfer has not ALREADY failed on its own (Failed e / Cancelled not yet reaped): its 451 / session end
+       is pending and is reported by the dispatcher, it is not ABOR's reply. *)
+Theorem C14_abor_any_moment : forall st,
+  reachable genF st -> alive (ss st) = true -> (List.length (ws st) <= 1)%nat ->
+  forallb (at_rest genF) (ws st) = true ->
+  abor_ok genF st.
+Proof. exact (fun st => abor_any_moment_repaired genF st C14_facts_ok). Qed.
+Print Assumptions C14_abor_any_moment.
+
+(* in the transfer body (from the detach to the last __aexit__, the back-end open included, any number k of blocks
+   moved, any payload): exactly 426 then 226 *)
 Theorem C14_abor_in_body : forall st w,
   reachable genF st -> alive (ss st) = true -> ws st = [w] ->
-  in_body (parked_stage genF w) = true -> w_leak w = false -> hole genF w = false ->
+  in_body (parked_stage genF w) = true ->
   snd (abor_run genF st) = [426%Z; 226%Z]
   /\ fst (abor_run genF st) = {| ss := ss st; ws := [] |}
   /\ (exists w', ws (unwind genF (fst (step genF st Abor))) = [w'] /\ good_w genF w' /\ same_data w w').
-Proof. exact (fun st w Hr => abor_in_body genF st w C14_facts_ok (reachable_ok genF st Hr)). Qed.
+Proof. exact (fun st w => abor_in_body_repaired genF st w C14_facts_ok). Qed.
 Print Assumptions C14_abor_in_body.
 
 Theorem C14_moved_is_prefix : forall cc wf d w,
@@ -41,85 +59,47 @@ Print Assumptions C14_moved_is_prefix.
 (* no worker (never started, or finished AND reaped): a single 226, nothing else changes *)
 Theorem C14_abor_idle : forall st, alive (ss st) = true -> ws st = [] ->
   step genF st Abor = (st, [226%Z]).
-Proof. exact (fun st => abor_idle genF st (sound14_abor_known genF C14_facts_ok)). Qed.
+Proof. exact (fun st => abor_idle genF st (sound14_abor_known genF (proj1 (repaired14_inv genF C14_facts_ok)))). Qed.
 Print Assumptions C14_abor_idle.
 
-(* THE FULL STATEMENT (kept visible; false on today's code, see the _refuted theorems) *)
-Definition abor_any_moment : Prop := forall st,
-  reachable genF st -> alive (ss st) = true -> (List.length (ws st) <= 1)%nat ->
-  forallb (fun w => negb (w_leak w)) (ws st) = true ->
-  abor_ok genF st.
-
-(* proved: the same with the refuted stages excluded.  abor_safe genF w is false exactly when w
-   (a) is Spawned or WaitingData (F2: the wait wrapper is outside @worker and the dispatcher does
-   not handle a cancelled task), (b) is finished but not reaped, or finishes before it can be
-   cancelled (F3: abor() tests the truthiness of the set), (c) is parked on the file open while the
-   stream is not yet inside the `async with` (F4), or already carries an abandoned stream. *)
-Theorem C14_abor_any_moment_partial : forall st,
-  reachable genF st -> alive (ss st) = true -> (List.length (ws st) <= 1)%nat ->
-  forallb (abor_safe genF) (ws st) = true ->
-  abor_ok genF st.
-Proof. exact (fun st Hr => abor_any_moment_partial genF st C14_facts_ok (reachable_ok genF st Hr)). Qed.
-Print Assumptions C14_abor_any_moment_partial.
-
-(* non-vacuity: reachable states of every transfer kind in the body satisfy the hypotheses *)
-Example C14_partial_nonvacuous :
+(* non-vacuity: reachable states of every transfer kind and every kind of stage satisfy the hypotheses *)
+Example C14_nonvacuous :
   forallb (fun evs => let st := at_trace evs in
-                      alive (ss st) && Nat.leb (List.length (ws st)) 1 && forallb (abor_safe genF) (ws st)
+                      alive (ss st) && Nat.leb (List.length (ws st)) 1 && forallb (at_rest genF) (ws st)
                       && negb (match ws st with [] => true | _ => false end))
-    [ pre_data ++ [Spawn KRetr [1;2;3]%Z; WStep 0; WStep 0; WStep 0; WStep 0; WStep 0; WStep 0];   (* Loop 2 *)
+    [ pre ++ [Spawn KStor [1]%Z];                                                                  (* Spawned *)
+      pre ++ [Spawn KRetr [1;2;3]%Z; WStep 0];                                                     (* WaitingData *)
+      pre_data ++ [Spawn KStor [1;2]%Z; WStep 0; WStep 0; WStep 0];                               (* EnteringCtx 1: file open *)
+      pre_data ++ [Spawn KRetr [1;2;3]%Z; WStep 0; WStep 0; WStep 0; WStep 0; WStep 0; WStep 0; WStep 0];  (* Loop 2 *)
       pre_data ++ [Spawn KStor [1;2]%Z; WStep 0; WStep 0; WStep 0; WStep 0];                      (* Seeking *)
       pre_data ++ [Spawn KList [1]%Z; WStep 0; WStep 0; WStep 0; WStep 0];                        (* Loop 0 *)
-      pre_data ++ [Spawn KMlsd []; WStep 0];                                                      (* Detached *)
-      pre_data ++ [Spawn KRetr [1]%Z; WStep 0; WStep 0; WStep 0; WStep 0; WStep 0; WStep 0; WStep 0; WStep 0]  (* ExitingCtx 0: file close *)
+      pre_data ++ [Spawn KRetr [1]%Z; WStep 0; WStep 0; WStep 0; WStep 0; WStep 0; WStep 0; WStep 0];  (* ExitingCtx 1: file close *)
+      pre_data ++ [Spawn KStor []; WStep 0; WStep 0; WStep 0; WStep 0; WStep 0; WStep 0; WStep 0; WStep 0]  (* Replied, not reaped *)
     ] = true.
 Proof. vm_compute. reflexivity. Qed.
 
-(* F2: ABOR while the worker still waits for the data connection (after 150, before the peer
-   connects): no reply at all and the session is dropped *)
-Theorem C14_abor_waiting_refuted :
+(* the former witnesses of F2, F3, F4, now instances of the theorem *)
+(* F2: ABOR while the worker still waits for the data connection / has not started: 426, 226, session alive *)
+Example C14_abor_waiting_answered :
   let st := at_trace (pre ++ [Spawn KRetr [1;2;3]%Z; WStep 0]) in
-  alive (ss st) = true
-  /\ map w_stage (ws st) = [WaitingData false]
-  /\ snd (abor_run genF st) = []
-  /\ alive (ss (fst (abor_run genF st))) = false.
+  map w_stage (ws st) = [WaitingData false]
+  /\ snd (abor_run genF st) = [426%Z; 226%Z] /\ fst (abor_run genF st) = {| ss := ss st; ws := [] |}.
 Proof. vm_compute. repeat split; reflexivity. Qed.
-Print Assumptions C14_abor_waiting_refuted.
-
-(* F2, variant: the worker task has been created and not yet run *)
-Theorem C14_abor_spawned_refuted :
+Example C14_abor_spawned_answered :
   let st := at_trace (pre ++ [Spawn KStor [1]%Z]) in
-  alive (ss st) = true /\ map w_stage (ws st) = [Spawned]
-  /\ snd (abor_run genF st) = [] /\ alive (ss (fst (abor_run genF st))) = false.
+  map w_stage (ws st) = [Spawned]
+  /\ snd (abor_run genF st) = [426%Z; 226%Z] /\ fst (abor_run genF st) = {| ss := ss st; ws := [] |}.
 Proof. vm_compute. repeat split; reflexivity. Qed.
-
-(* F3: ABOR when the worker has finished but has not been reaped: extra_workers is non-empty, so
-   abor() cancels (a no-op on a finished task) and does not reply; nothing ever answers the ABOR *)
-Theorem C14_abor_unreaped_refuted :
+(* F3: the worker has finished but has not been reaped: a single 226 *)
+Example C14_abor_unreaped_answered :
   let st := at_trace (pre_data ++ [Spawn KStor []; WStep 0; WStep 0; WStep 0; WStep 0; WStep 0; WStep 0; WStep 0; WStep 0]) in
-  alive (ss st) = true /\ map w_stage (ws st) = [Replied]
-  /\ snd (abor_run genF st) = []
-  /\ alive (ss (fst (abor_run genF st))) = true.
+  map w_stage (ws st) = [Replied]
+  /\ snd (abor_run genF st) = [226%Z] /\ fst (abor_run genF st) = {| ss := ss st; ws := [] |}.
 Proof. vm_compute. repeat split; reflexivity. Qed.
-Print Assumptions C14_abor_unreaped_refuted.
-
-(* F4: ABOR while the file open is suspended (the file context is entered before the stream):
-   426, 226 are sent but the detached data stream is closed by nobody (ledger slot 4) *)
-Theorem C14_abor_entering_file_refuted :
-  let st := at_trace (pre_data ++ [Spawn KStor [1;2]%Z; WStep 0; WStep 0]) in
-  alive (ss st) = true /\ map w_stage (ws st) = [EnteringCtx 0]
+(* F4: ABOR while the file open is suspended: 426, 226 and the data stream is closed (ledger slot 4) *)
+Example C14_abor_entering_file_closes_stream :
+  let st := at_trace (pre_data ++ [Spawn KStor [1;2]%Z; WStep 0; WStep 0; WStep 0]) in
+  map w_stage (ws st) = [EnteringCtx 1]
   /\ snd (abor_run genF st) = [426%Z; 226%Z]
-  /\ nth 4 (ledger genF (fst (abor_run genF st))) 0%Z = 1%Z.
+  /\ nth 4 (ledger genF st) 0%Z = 1%Z /\ nth 4 (ledger genF (fst (abor_run genF st))) 0%Z = 0%Z.
 Proof. vm_compute. repeat split; reflexivity. Qed.
-Print Assumptions C14_abor_entering_file_refuted.
-
-Theorem C14_abor_any_moment_refuted : ~ abor_any_moment.
-Proof.
-  intros H.
-  specialize (H (at_trace (pre ++ [Spawn KRetr [1;2;3]%Z; WStep 0]))).
-  assert (R : reachable genF (at_trace (pre ++ [Spawn KRetr [1; 2; 3]%Z; WStep 0])))
-    by (exists true, (pre ++ [Spawn KRetr [1; 2; 3]%Z; WStep 0]); reflexivity).
-  specialize (H R). vm_compute in H.
-  destruct (H eq_refl (le_n 1) eq_refl) as [[X | X] _]; discriminate X.
-Qed.
-Print Assumptions C14_abor_any_moment_refuted.
